@@ -52,6 +52,25 @@ impl<F> Stream<F> {
         self.total_len == 0
     }
 
+    /// (stream_id, total_len, buf_offset_from_start, pos, cap, data.len(),
+    /// max_size, dirty)
+    #[cfg(cfb_verif)]
+    pub fn verif_state(
+        &self,
+    ) -> (u32, u64, u64, usize, usize, usize, usize, bool) {
+        let (pos, cap, data_len, max_size) = self.buffer.verif_parts();
+        (
+            self.stream_id,
+            self.total_len,
+            self.buf_offset_from_start,
+            pos,
+            cap,
+            data_len,
+            max_size,
+            self.flusher.is_some(),
+        )
+    }
+
     fn current_position(&self) -> u64 {
         self.buf_offset_from_start + (self.buffer.cursor() as u64)
     }
